@@ -60,6 +60,9 @@ VOCAB = [
     "@render:react f(x)", "@render :x", "@render f", "@render f(x=)", "@render: f()", "@render:react", "@render f(x))", "@render 9(x)",
     "@input name=\"n\"", "@input", "@input name=", "@input name=\"n\" label=\"l\"", "@input foo", "@input name=\"", "@input name=n",
     "@input label=\"l\"", "@input name=\"n\" name=\"m\"", "@start B", "@start", "@start  ", "@metadata", "  title: T", "  title", "@include x.bard",
+    "+ [a] -> // TODO", "* [a] ->   // later", "+ {c} [a] -> // x", "-> // c", "@hook e // c", "@render // c", "@input // c", "@if // c",
+    "@for i in // c", ":: // c", ":: A // (", "~ // c", "@start // c", "~ x = 1\x000", "~ x = '\x00'", "hello\x00{x}", ":: A\x00", "\x0c", "+ [a\x00] -> B",
+    "\ufeff:: A", "a\u2028b", "~ x = \"\\", "~ x = 1 \\", "@if x:\r", "+ [a] -> B\r", "{x\r}",
     "@include", "@foo", "@", "@@", "import os", "from x import y", "from", "import", "# c", "", "   ", "\t", "#", "@endjoin", "@if x: // c", "@prefix a",
 ]
 
@@ -140,6 +143,8 @@ def gen_sequence(r, max_len):
         lines.append(r.choice([":: Start", ":: A", ":: A(x=1)"]))
     for _ in range(n):
         v = r.choice(VOCAB)
+        if r.random() < 0.12 and "//" not in v:
+            v += r.choice([" // note", " // (x)", "// c", " // ^t", " //"])
         lines.append(r.choice(IND) + v)
         if r.random() < 0.25:         # a plausible continuation so that blocks get bodies and closers
             lines.append(r.choice(IND) + r.choice(["hello {x}", "+ [a] -> A", "~ x = 1", "@endif", "@endfor", "@endpy", "]", "-> A", "@else:", ">>"]))
@@ -149,7 +154,8 @@ def gen_sequence(r, max_len):
     return "\n".join(lines) + r.choice(["", "\n", "\n\n"])
 
 
-SPECIAL = list("{}[]()<>:@+*~^\"'\\/#|?=,.- \t") + ["\n", "//", "<<", ">>", "->", "::", "{{", "}}", "<>", "\u00e9"]
+SPECIAL = list("{}[]()<>:@+*~^\"'\\/#|?=,.- \t") + ["\n", "//", "<<", ">>", "->", "::", "{{", "}}", "<>", "\u00e9", "\x00", "\r", "\x0c",
+                                                     "\ufeff", "\u2028", " // c", "\\"]
 
 
 def mutate(r, text):
